@@ -149,3 +149,21 @@ def is_library_exc(exc):
 
 def exc_bucket(exc):
     return "%s@%s" % (type(exc).__name__, innermost_frame(exc))
+
+
+ENGINE_LIMITS = ("parser stack overflow", "expression tree is too large", "too many sql variables",
+                 "too many terms in compound select", "like or glob pattern too complex", "string or blob too big")
+
+
+def engine_limit(exc):
+    """Is exc a refusal by the *engine* (or by an ORM's own recursive compiler) because a statement is too
+    deep or too large for it? That is a limit of the engine, reached or not depending on how many
+    parentheses a translation happens to emit - not a verdict on the translation."""
+    msg = str(exc).lower()
+    if any(m in msg for m in ENGINE_LIMITS):
+        return True
+    if isinstance(exc, RecursionError):
+        tb = traceback.extract_tb(exc.__traceback__)
+        inner = tb[-1].filename.replace("\\", "/") if tb else ""
+        return "/odata_query/" not in inner
+    return False
